@@ -142,7 +142,9 @@ def do_decoder_pair(req):
     part = req.get('part')
     if part and ta is not None and tb is not None:
         ta, tb = text_part(ta, part), text_part(tb, part)
-    if mode == 'must_equal':
+    if mode == 'twin':
+        viol = ta is None or tb is None or tb != ta.replace('(', '_nocancel(', 1)
+    elif mode == 'must_equal':
         viol = ta != tb
     else:
         viol = ta == tb
